@@ -41,6 +41,13 @@ Theorem C19_stops_on_success_cancel_noretry : forall iv maxd cancel pick0 calls 
 Proof. exact stops_on_success_cancel_noretry. Qed.
 Print Assumptions C19_stops_on_success_cancel_noretry.
 
+Theorem C19_retries_while_failing : forall iv maxd pick0 calls atts r te, iv <> [] ->
+  Forall (fun c => c_out c = OPlain) calls ->
+  do_with_retry iv maxd None pick0 calls = (atts, r, te) ->
+  (r = RPending /\ length atts = length calls) \/ ((r = RGiveUpNil \/ r = RLoopExit) /\ (maxd <= te)%Z).
+Proof. exact retries_while_failing. Qed.
+Print Assumptions C19_retries_while_failing.
+
 Theorem C19_cancel_prompt : forall iv maxd cn pick0 calls atts r te, iv <> [] -> all_positive iv = true ->
   do_with_retry iv maxd (Some cn) pick0 calls = (atts, r, te) ->
   (forall i, (i < length atts)%nat -> (a_start (nth i atts att0) <= cn)%Z \/ i = 0%nat) /\
